@@ -60,3 +60,17 @@ def dev_selftest(v, wd, depth=5, workers=8):
     vlib.require(r["error"] and "HistoryIndependent is violated" in r["error"],
                  "MC_Engine with DevRegexKeyedByAddress=TRUE no longer violates HistoryIndependent (model lost its sensitivity)")
     v.stage_info.append({"selftest": "DevRegexKeyedByAddress=TRUE => HistoryIndependent violated (expected)", "wall_s": r["wall_s"]})
+
+
+def longhist_stage(v, wd, seed, mode, runs, n_ops):
+    """M3 at scale: long random histories on one long-lived object holding ~300 rules (tagged regex and
+    full-regex rules, fusable groups of threshold sizes), validated by Trace_C06 (abstract engine state
+    machine + linear-scan oracle on the implementation's own matcher)."""
+    for k in range(runs):
+        tr = os.path.join(wd, "long_%s_%d.ndjson" % (mode, k))
+        summ = json.loads(vlib.run_harness(["record", "c06", tr, str(seed * 10 + k), str(n_ops), mode], timeout=3000))
+        rt, done, mism = vlib.trace_validate("Trace_C06", tr, wd, "long_%s_%d" % (mode, k), timeout=3000, heap="8g")
+        vlib.require(done["n"] == summ["events"], "long-history trace length mismatch")
+        v.add_tlc(rt)
+        v.add_report({"evaluations": summ["events"], "nontrivial": summ["nontrivial"], "samples": summ["samples"], "mismatches": mism,
+                      "counters": summ.get("counters", {})}, "M3:Trace_C06/%s/%d" % (mode, k), traces=1)
